@@ -303,8 +303,8 @@ def run_operator_task(task):
 
 _run_state_task = None
 
-TIERS = {"quick": {"W1": (25, 4), "W2": (12, 0), "W3": (20, 3), "W4": (6, 0)},
-         "thorough": {"W1": (400, 40), "W2": (400, 20), "W3": (400, 30), "W4": (60, 0)}}
+TIERS = {"quick": {"W1": (80, 8), "W1c": (20, 0), "W2": (60, 6), "W3": (80, 6), "W4": (30, 3)},
+         "thorough": {"W1": (400, 40), "W1c": (400, 10), "W2": (400, 20), "W3": (400, 30), "W4": (200, 10)}}
 
 
 def make_tasks(tier):
